@@ -626,11 +626,13 @@ func writeEvidence(path, id, tier string, seed int, cov map[string]interface{}, 
 
 // dischargeShared is discharge with a solver-slot semaphore shared by all functions.
 func dischargeShared(fx *FnExec, obls []*Obligation, opt dischargeOpts, slots chan struct{}) {
+	defer func() { fx.c.noPrune = false }()
 	c := fx.c
 	var wg sync.WaitGroup
 	rngMemo := map[*Term]bool{}
 	quantMemo := map[*Term]bool{}
 	for _, o := range obls {
+		c.noPrune = o.Cover
 		goal := c.Implies(o.PC, o.Goal)
 		if goal.IsTrue() {
 			o.Status, o.Backend = "unsat", "simplifier"
